@@ -1028,6 +1028,15 @@ class Interp(object):
             return a.order(self, op, b)
         if isinstance(a, tuple) and isinstance(b, tuple):
             return self.tuple_order(op, a, b)
+        if isinstance(a, Opaque) and isinstance(b, Opaque):
+            # user values: an uninterpreted order
+            if isinstance(op, ast.LtE):
+                return opaque_le(a, b)
+            if isinstance(op, ast.GtE):
+                return opaque_le(b, a)
+            if isinstance(op, ast.Lt):
+                return Not(opaque_le(b, a))
+            return Not(opaque_le(a, b))
         if isinstance(a, (str, bytes)) and isinstance(b, type(a)):
             return {ast.Lt: a < b, ast.LtE: a <= b, ast.Gt: a > b, ast.GtE: a >= b}[type(op)]
         if isinstance(a, NodeId) and isinstance(b, NodeId):
